@@ -503,7 +503,24 @@ pub fn miter(ctx: &Context, a: ExprRef, b: ExprRef) -> Result<Miter, IllTyped> {
 /// `abstract_hard`: stage-1 miter with uninterpreted division/remainder/multiplication; only an
 /// `unsat` answer to it is meaningful.
 pub fn miter_opt(ctx: &Context, a: ExprRef, b: ExprRef, abstract_hard: bool) -> Result<Miter, IllTyped> {
+    miter_mapped(ctx, a, b, &HashMap::new(), &[], abstract_hard)
+}
+
+/// Miter under a substitution of symbols by terms (`sym_map`); `force_decl` lists symbols that
+/// must be declared even if only the substituted side mentions them (through their `s!<idx>` name).
+pub fn miter_mapped(
+    ctx: &Context,
+    a: ExprRef,
+    b: ExprRef,
+    sym_map: &HashMap<ExprRef, String>,
+    force_decl: &[ExprRef],
+    abstract_hard: bool,
+) -> Result<Miter, IllTyped> {
     let mut r = RefEnc::new(ctx, "n");
+    r.sym_map = sym_map.clone();
+    for s in force_decl {
+        r.enc(*s)?;
+    }
     r.abstract_hard = abstract_hard;
     let (ta, tya) = r.enc(a)?;
     let (tb, tyb) = r.enc(b)?;
